@@ -1,7 +1,12 @@
 /-
-  Redress.Monitors — the executable property monitors `Cxx.ok`, written once, evaluated by the
-  driver on traces of the model *and* of the implementation, and proved true of every model run in
-  `Redress/Props/Cxx.lean`.
+  Redress.Monitors — the executable property monitors, written once.
+
+  Each monitor judges ONE call: configuration, entry point, exchange log (oldest first), result.
+  The driver evaluates them on the log of the model *and* on the log recorded from the Python
+  implementation; `Redress/Props/Cxx.lean` proves them true of every model run.
+
+  A monitor is a left fold with a small state (`σ`, `step`) and a verdict at the end — the shape
+  the proofs want (the fold state at any program point is a function of the trace so far).
 -/
 import Redress.Model.Run
 
@@ -10,10 +15,805 @@ namespace Redress
 /-- A monitor judges one call: configuration, entry point, exchange log (oldest first), result. -/
 abbrev Monitor := Cfg → Entry → List (Req × Ans) → Res → Bool
 
+abbrev Trace := List (Req × Ans)
+
+namespace Mon
+
+/-! ### shared vocabulary -/
+
+def isOp : Req → Bool
+  | .op _ => true
+  | _ => false
+
+def isSleeper : Req → Bool
+  | .sleeper .. => true
+  | _ => false
+
+/-- the failure class an answer to a classifier request announces -/
+def classOf? : Req → Ans → Option Classification
+  | .classify _, .klass c _ => some c
+  | .resultClassify _, .klass c _ => some c
+  | _, _ => none
+
+def opCount (t : Trace) : Nat := (t.filter (isOp ·.1)).length
+
+def isRecord : Req → Bool
+  | .breakerSuccess | .breakerFailure _ | .breakerCancel => true
+  | _ => false
+
+/-- some exchange whose request satisfies `p` was answered by raising `e` -/
+def raisedBy (p : Req → Bool) (t : List (Req × Ans)) (e : Exn) : Bool :=
+  t.any fun x => p x.1 && (match x.2 with
+    | .raise e' _ => e' == e
+    | _ => false)
+
+def isAttemptHook : Req → Bool
+  | .attemptStart _ | .attemptEnd _ | .abortIf => true
+  | _ => false
+
+/-- an attempt hook or the abort predicate itself RAISED (execute() then treats the error as a
+    failure of an attempt in which the operation was never invoked): outside the stated
+    environment of every property but C08 -/
+def attemptHookFault (t : List (Req × Ans)) : Bool :=
+  t.any fun x => isAttemptHook x.1 && (x.2 matches .raise ..)
+
+/-- an observability hook raised something that is not an `Exception` (KeyboardInterrupt, …):
+    outside every property's stated environment except C08's -/
+def hookBaseFault (t : List (Req × Ans)) : Bool :=
+  t.any fun x => (match x.1 with
+      | .metric .. | .log .. | .beforeSleep .. => true
+      | _ => false) && (match x.2 with
+      | .raise e _ => !e.isException
+      | _ => false)
+
+def isBreakerEv : Event → Bool
+  | .circuitOpened | .circuitHalfOpen | .circuitClosed | .circuitRejected => true
+  | _ => false
+
+/-- admission by the breaker and the events it emits come before the retry state (and its clock)
+    exists -/
+def isPrelude : Req → Bool
+  | .breakerAllow => true
+  | .metric ev .. => isBreakerEv ev
+  | .log ev .. => isBreakerEv ev
+  | _ => false
+
+/-- the part of the log that belongs to the retry loop's own clock -/
+def retryTrace (t : List (Req × Ans)) : List (Req × Ans) := t.dropWhile (isPrelude ·.1)
+
+/-- the breaker rejected this call -/
+def rejected (t : List (Req × Ans)) : Bool :=
+  t.any fun x => match x.1, x.2 with
+    | .breakerAllow, .admit false _ _ => true
+    | _, _ => false
+
+/-- an entry with a retry loop in it -/
+def hasLoop (cfg : Cfg) (e : Entry) : Bool := !e.isPolicy || cfg.hasRetry
+
+/-! ### C01 — attempt caps -/
+
+namespace C01
+
+structure St where
+  ops : Nat := 0
+  pending : Option EClass := none          -- class of the last failure, no op since
+  retries : EClass → Nat := fun _ => 0     -- ops that immediately followed a class-K failure
+  dead : Bool := false                     -- a non-retryable failure has been seen
+  bad : Bool := false                      -- an op after a non-retryable failure
+
+def step (s : St) (x : Req × Ans) : St :=
+  match x.1 with
+  | .op _ =>
+    let s := { s with ops := s.ops + 1, bad := s.bad || s.dead }
+    match s.pending with
+    | some k => { s with pending := none,
+                         retries := fun k' => if k' = k then s.retries k' + 1 else s.retries k' }
+    | none => s
+  | _ => match classOf? x.1 x.2 with
+    | some c => { s with pending := some c.klass, dead := s.dead || c.klass.nonRetryable }
+    | none => s
+
+def run (t : Trace) : St := t.foldl step {}
+
+def verdict (cfg : Cfg) (e : Entry) (s : St) : Bool :=
+  if hasLoop cfg e then
+    decide (s.ops ≤ cfg.maxAttempts) && !s.bad
+    && EClass.all.all (fun k => match cfg.perClass k with
+        | some l => decide (s.retries k ≤ l)
+        | none => true)
+    && (match cfg.maxUnknown with
+        | some m => decide (s.retries .unknown ≤ m)
+        | none => true)
+  else decide (s.ops ≤ 1)
+
+def ok : Monitor := fun cfg e t _ => verdict cfg e (run t)
+
+end C01
+
+/-! ### elapsed time: passes only inside answers -/
+
+/-- elapsed time (since the start of the call) at each exchange: before and after the answer -/
+def withTimes (t : Trace) : List (Nat × (Req × Ans) × Nat) :=
+  (t.foldl (fun (acc : Nat × List (Nat × (Req × Ans) × Nat)) x =>
+      (acc.1 + x.2.dur, (acc.1, x, acc.1 + x.2.dur) :: acc.2)) (0, [])).2.reverse
+
+/-- time passes only in attempts and sleeps (C02's quantifier) -/
+def quiet (t : Trace) : Bool :=
+  t.all fun x => isOp x.1 || isSleeper x.1 || x.2.dur == 0
+
+/-- each sleeper call lasts at least the requested delay, unless it raises -/
+def honestSleeper (t : Trace) : Bool :=
+  t.all fun x => match x.1, x.2 with
+    | .sleeper _ d, .unit dur => decide (d ≤ dur)
+    | _, _ => true
+
+/-! ### C02 — deadline envelope -/
+
+namespace C02
+
+structure St where
+  now : Nat := 0                 -- elapsed at the next request
+  ops : Nat := 0
+  slept : Nat := 0               -- Σ requested delays
+  late : Bool := false           -- a failure has been observed at elapsed ≥ deadline
+  bad : Bool := false
+
+def step (cfg : Cfg) (s : St) (x : Req × Ans) : St :=
+  let after := s.now + x.2.dur
+  match x.1 with
+  | .op _ =>
+    let failed := match x.2 with
+      | .raise e _ => e.isException && !e.isAbort && !e.isExhausted
+      | _ => false
+    { s with now := after, ops := s.ops + 1,
+             bad := s.bad || s.late || (decide (s.ops ≥ 1) && decide (s.now > cfg.deadline)),
+             late := s.late || (failed && decide (after ≥ cfg.deadline)) }
+  | .resultClassify _ =>
+    let failed := match x.2 with
+      | .klass .. => true
+      | _ => false
+    { s with now := after, late := s.late || (failed && decide (s.now ≥ cfg.deadline)) }
+  | .sleeper _ d =>
+    { s with now := after, slept := s.slept + d,
+             bad := s.bad || s.late || decide (s.now + d > cfg.deadline) }
+  | _ => { s with now := after }
+
+def run (cfg : Cfg) (t : Trace) : St := t.foldl (step cfg) {}
+
+/-- Under `quiet`: no attempt after the deadline, no sleep beyond the remaining time, no retry of a
+    late failure; under `quiet ∧ honestSleeper` also Σ sleeps ≤ deadline. -/
+def ok : Monitor := fun cfg e t _ =>
+  if hasLoop cfg e && quiet t then
+    let s := run cfg (retryTrace t)
+    !s.bad && (!honestSleeper t || decide (s.slept ≤ cfg.deadline))
+  else true
+
+end C02
+
+/-! ### C13 — abort and cancellation -/
+
+namespace C13
+
+structure St where
+  polled : Bool := false        -- an abort poll since the last op answer / start
+  aborted : Bool := false       -- a poll answered True, or the operation raised AbortRetryError
+  cancelled : Option Exn := none   -- op / sleeper raised a cancellation-type exception
+  bad : Bool := false
+
+def step (cfg : Cfg) (s : St) (x : Req × Ans) : St :=
+  -- after a cancellation nothing but breaker bookkeeping may happen
+  let s := match s.cancelled, x.1 with
+    | some _, .breakerSuccess | some _, .breakerFailure _ | some _, .breakerCancel => s
+    | some _, _ => { s with bad := true }
+    | none, _ => s
+  match x.1, x.2 with
+  | .abortIf, .bool true _ => { s with polled := true, aborted := true }
+  | .abortIf, _ => { s with polled := true }
+  | .op _, a =>
+    let s := { s with bad := s.bad || s.aborted || (cfg.abortIf && !s.polled), polled := false }
+    match a with
+    | .raise e _ =>
+      if e.isAbort then { s with aborted := true }
+      else if e.isCancelKind then { s with cancelled := some e }
+      else s
+    | _ => s
+  | .sleeper .., a =>
+    let s := { s with bad := s.bad || s.aborted || (cfg.abortIf && !s.polled) }
+    match a with
+    | .raise e _ => if e.isCancelKind then { s with cancelled := some e } else s
+    | _ => s
+  | _, _ => s
+
+def run (cfg : Cfg) (t : Trace) : St := t.foldl (step cfg) {}
+
+def resIsAbort : Res → Bool
+  | .raised e => e.isAbort
+  | .outcome o _ => o.stop == some .aborted
+  | _ => false
+
+def verdict (t : Trace) (s : St) (r : Res) : Bool :=
+  !s.bad
+  && (match s.cancelled with
+      | some e => r == .raised e
+      | none => true)
+  && (if s.aborted && s.cancelled.isNone then
+        -- the run ends aborted, unless an error of some other callback intervened
+        match r with
+        | .raised e => e.isAbort || Mon.raisedBy (fun r => !Mon.isOp r) t e
+        | .outcome o _ => o.stop == some .aborted
+        | .ret _ => false
+      else true)
+
+def ok : Monitor := fun cfg e t r =>
+  if hasLoop cfg e then verdict t (run cfg t) r else true
+
+end C13
+
+/-! ### C03 — retry exactly when permitted -/
+
+namespace C03
+
+structure St where
+  ops : Nat := 0
+  succeeded : Bool := false        -- the last op returned a value not (yet) classified as failure
+  done : Bool := false             -- a success has been confirmed
+  strat : Bool := false            -- since the last op: strategy called
+  granted : Bool := false          -- since the last op: budget granted
+  refused : Bool := false          -- since the last op: budget refused
+  retryEv : Bool := false          -- since the last op: `retry` event seen (metric)
+  pollFalse : Bool := false        -- since the strategy call: a poll answered False
+  decision : Option SleepDecision := none
+  slept : Bool := false            -- since the last op: sleeper called
+  sawAbort : Bool := false
+  sawDefer : Bool := false
+  lastClass : Option EClass := none
+  classCount : EClass → Nat := fun _ => 0
+  bad : Bool := false
+
+def step (cfg : Cfg) (s : St) (x : Req × Ans) : St :=
+  let afterLast := decide (s.ops ≥ cfg.maxAttempts)
+  -- an AbortRetryError raised by ANY callback aborts the run
+  let s := match x.2 with
+    | .raise e _ => if e.isAbort then { s with sawAbort := true } else s
+    | _ => s
+  match x.1, x.2 with
+  | .op _, a =>
+    let s := { s with bad := s.bad || s.done || (decide (s.ops ≥ 1) && !s.slept) }
+    let s := { s with ops := s.ops + 1, strat := false, granted := false, refused := false,
+                      retryEv := false, pollFalse := false, decision := none, slept := false }
+    (match a with
+     | .value .. => { s with succeeded := true, done := !cfg.resultClassifier }
+     | .raise e _ => { s with succeeded := false, sawAbort := s.sawAbort || e.isAbort }
+     | _ => s)
+  | .resultClassify _, .noFailure _ => { s with done := true }
+  | .resultClassify _, .klass c _ =>
+    { s with succeeded := false, lastClass := some c.klass,
+             classCount := fun k => if k = c.klass then s.classCount k + 1 else s.classCount k }
+  | .classify _, .klass c _ =>
+    { s with lastClass := some c.klass,
+             classCount := fun k => if k = c.klass then s.classCount k + 1 else s.classCount k }
+  | .abortIf, .bool b _ => { s with pollFalse := s.pollFalse || (s.strat && !b), sawAbort := s.sawAbort || b }
+  | .strategy .., _ => { s with strat := true, bad := s.bad || s.done || afterLast }
+  | .budgetConsume, .granted g =>
+    { s with granted := s.granted || g, refused := s.refused || !g, bad := s.bad || s.done || afterLast }
+  | .metric .retry .., _ => { s with retryEv := true, bad := s.bad || s.done || afterLast }
+  | .sleepHandler .., .decision d _ =>
+    { s with decision := some d, sawAbort := s.sawAbort || d == .abort, sawDefer := s.sawDefer || d == .defer }
+  | .sleeper .., _ =>
+    let permitted := s.strat && (cfg.budget.isNone || s.granted) && (!cfg.metric || s.retryEv)
+      && (!cfg.abortIf || s.pollFalse)
+      && (cfg.handler.isNone || s.decision == some .sleep)
+    { s with slept := true, bad := s.bad || s.done || afterLast || !permitted || s.slept }
+  | _, _ => s
+
+def run (cfg : Cfg) (t : Trace) : St := t.foldl (step cfg) {}
+
+def stopOf : Res → Option StopReason
+  | .outcome o _ => o.stop
+  | .raised (.libExhausted f) => some f.stop
+  | _ => none
+
+/-- each reported stop reason implies its condition -/
+def stopSound (cfg : Cfg) (t : Trace) (s : St) (r : Res) : Bool :=
+  match stopOf r with
+  | none => true
+  | some .maxAttemptsGlobal => decide (s.ops ≥ cfg.maxAttempts)
+  | some .budgetExhausted => s.refused
+  | some .aborted => s.sawAbort
+  | some .scheduled => s.sawDefer
+  | some .deadlineExceeded => decide (((retryTrace t).foldl (fun n x => n + x.2.dur) 0) ≥ cfg.deadline)
+  | some .nonRetryableClass => (s.lastClass.map EClass.nonRetryable).getD false
+  | some .maxUnknownAttempts =>
+    s.lastClass == some .unknown
+    && (match cfg.maxUnknown with | some m => decide (s.classCount .unknown > m) | none => false)
+  | some .maxAttemptsPerClass =>
+    (match s.lastClass with
+     | some k => (match cfg.perClass k with | some l => decide (s.classCount k > l) | none => false)
+     | none => false)
+  | some .noStrategy =>
+    (match s.lastClass with
+     | some k => (cfg.selectStrategy k).isNone
+     | none => false)
+
+def ok : Monitor := fun cfg e t r =>
+  if hasLoop cfg e && !Mon.attemptHookFault t then
+    let s := run cfg t
+    !s.bad && stopSound cfg t s r
+  else true
+
+end C03
+
+/-! ### C05 — backoff delay data-flow; C16 — sleep-handler protocol -/
+
+namespace C05
+
+structure St where
+  now : Nat := 0
+  ops : Nat := 0
+  lastCls : Option Classification := none
+  lastCause : Cause := .exception
+  prev : Option Nat := none          -- previously applied delay
+  strats : Nat := 0                  -- strategy calls since the last op
+  delay : Option Nat := none         -- sanitised output of the strategy call of this attempt
+  bad : Bool := false
+
+def sanitize := Retry.sanitize
+
+def step (cfg : Cfg) (s : St) (x : Req × Ans) : St :=
+  let after := s.now + x.2.dur
+  let s' := { s with now := after }
+  match x.1, x.2 with
+  | .op _, _ => { s' with ops := s.ops + 1, strats := 0, delay := none }
+  | .classify _, .klass c _ => { s' with lastCls := some c, lastCause := .exception }
+  | .resultClassify _, .klass c _ => { s' with lastCls := some c, lastCause := .result }
+  | .strategy key kind ctx, a =>
+    let expected := s.lastCls.bind fun c => cfg.selectStrategy c.klass
+    let argsOk :=
+      expected == some (key, kind)
+      && ctx.attempt == s.ops
+      && (s.lastCls.map (·.klass)) == some ctx.klass
+      && ctx.prev == s.prev
+      && (kind == .legacy ||
+           ((s.lastCls.bind (·.retryAfter)) == ctx.retryAfter
+            && ctx.remaining + s.now == cfg.deadline && decide (0 < ctx.remaining)
+            && ctx.cause == s.lastCause))
+    let d := match a with
+      | .delay out _ => some (sanitize out (cfg.deadline - s.now))
+      | _ => none
+    { s' with strats := s.strats + 1, delay := d, bad := s.bad || !argsOk || decide (s.strats ≥ 1) }
+  | .metric .retry _ sl _, _ => { s' with bad := s.bad || s.delay != some sl }
+  | .log .retry _ sl _ _, _ => { s' with bad := s.bad || s.delay != some sl }
+  | .budgetConsume, .granted true => { s' with prev := s.delay }
+  | .sleepHandler _ _ d, _ => { s' with bad := s.bad || s.delay != some d,
+                                        prev := if cfg.budget.isNone then s.delay else s.prev }
+  | .beforeSleep _ _ d, _ => { s' with bad := s.bad || s.delay != some d }
+  | .sleeper _ d, _ => { s' with bad := s.bad || s.delay != some d || s.strats != 1,
+                                 prev := if cfg.budget.isNone then s.delay else s.prev }
+  | _, _ => s'
+
+def run (cfg : Cfg) (t : Trace) : St := t.foldl (step cfg) {}
+
+def nextSleepOf : Res → Option (Option Nat)
+  | .outcome o _ => some o.nextSleep
+  | .raised (.libExhausted f) => some f.nextSleep
+  | _ => none
+
+def ok : Monitor := fun cfg e t r =>
+  if hasLoop cfg e && !Mon.attemptHookFault t then
+    let s := run cfg (retryTrace t)
+    !s.bad
+    && (match nextSleepOf r with
+        | some (some d) => s.delay == some d
+        | _ => true)
+  else true
+
+end C05
+
+namespace C16
+
+structure St where
+  handler : Option (SleepDecision × Nat) := none   -- decision of this attempt's handler call
+  handlerCalls : Nat := 0                          -- since the last op
+  before : Option Nat := none                      -- before_sleep seen (its d)
+  slept : Nat := 0                                 -- sleeper calls since the last op
+  stopped : Option SleepDecision := none           -- a DEFER/ABORT/other decision has been taken
+  deferD : Option Nat := none
+  bad : Bool := false
+
+def step (cfg : Cfg) (s : St) (x : Req × Ans) : St :=
+  match x.1, x.2 with
+  | .op _, _ =>
+    { s with handler := none, handlerCalls := 0, before := none, slept := 0,
+             bad := s.bad || s.stopped.isSome }
+  | .sleepHandler lvl _ d, a =>
+    let s := { s with handlerCalls := s.handlerCalls + 1,
+                      bad := s.bad || s.stopped.isSome || decide (s.handlerCalls ≥ 1)
+                             || cfg.handler != some lvl }
+    (match a with
+     | .decision .sleep _ => { s with handler := some (.sleep, d) }
+     | .decision dec _ => { s with handler := some (dec, d), stopped := some dec,
+                                   deferD := if dec == .defer then some d else s.deferD }
+     | _ => s)
+  | .beforeSleep lvl _ d, _ =>
+    { s with before := some d,
+             bad := s.bad || s.stopped.isSome || cfg.beforeSleep != some lvl
+                    || (cfg.handler.isSome && s.handler != some (.sleep, d)) || decide (s.slept ≥ 1) }
+  | .sleeper lvl d, _ =>
+    { s with slept := s.slept + 1,
+             bad := s.bad || s.stopped.isSome || cfg.sleeper != lvl || decide (s.slept ≥ 1)
+                    || (cfg.handler.isSome && s.handler != some (.sleep, d))
+                    || (cfg.beforeSleep.isSome && s.before != some d) }
+  | _, _ => s
+
+def run (cfg : Cfg) (t : Trace) : St := t.foldl (step cfg) {}
+
+def resMatches (s : St) (r : Res) : Bool :=
+  match s.stopped with
+  | none => true
+  | some .defer => (match r with
+      | .outcome o _ => o.stop == some .scheduled && o.nextSleep == s.deferD
+      | .raised (.libExhausted f) => f.stop == .scheduled && f.nextSleep == s.deferD
+      | .raised e => !e.isException || !(e matches .libAbort)    -- a later callback error may win
+      | .ret _ => false)
+  | some .abort => (match r with
+      | .outcome o _ => o.stop == some .aborted
+      | .raised e => e.isAbort || !(e matches .libExhausted _)
+      | .ret _ => false)
+  | some _ => (match r with
+      | .ret _ => false
+      | .outcome .. => false
+      | .raised _ => true)
+
+def ok : Monitor := fun cfg e t r =>
+  if hasLoop cfg e && !Mon.attemptHookFault t then
+    let s := run cfg t
+    !s.bad && resMatches s r
+  else true
+
+end C16
+
+/-! ### C14 — event stream -/
+
+namespace C14
+
+def isBreakerEvent : Event → Bool
+  | .circuitOpened | .circuitHalfOpen | .circuitClosed | .circuitRejected => true
+  | _ => false
+
+/-- the metric-sink view of the retry-level event stream: (event, attempt, sleep, tags) -/
+def metricStream (t : Trace) : List (Event × Nat × Nat × Tags) :=
+  t.filterMap fun x => match x.1 with
+    | .metric ev a s tags => if isBreakerEvent ev then none else some (ev, a, s, tags)
+    | _ => none
+
+def logStream (t : Trace) : List (Event × Nat × Nat × Tags) :=
+  t.filterMap fun x => match x.1 with
+    | .log ev a s tags _ => if isBreakerEvent ev then none else some (ev, a, s, tags)
+    | _ => none
+
+/-- `retry(1,·) … retry(n,·)` then exactly one terminal event -/
+def shapeOk : List (Event × Nat × Nat × Tags) → Nat → Bool
+  | [], _ => false
+  | [(ev, _, _, _)], _ => ev != .retry
+  | (ev, a, _, _) :: rest, i => ev == .retry && a == i && shapeOk rest (i + 1)
+
+/-- does the run end "normally" (value, failure, deferral or abort) — as opposed to a
+    cancellation, a nested RetryExhaustedError or an error of the caller's own callbacks? -/
+def endsNormally (t : Trace) (r : Res) : Bool :=
+  match r with
+  | .ret _ => true
+  | .outcome .. => true
+  | .raised .libAbort => true
+  | .raised (.libExhausted _) => true
+  | .raised e =>
+    e.isException && !e.isExhausted && Mon.raisedBy Mon.isOp t e
+    && !Mon.raisedBy (fun r => !Mon.isOp r) t e
+
+def stopOf : Res → Option StopReason
+  | .outcome o _ => o.stop
+  | .raised (.libExhausted f) => some f.stop
+  | .raised .libAbort => some .aborted
+  | .raised (.abort _) => some .aborted
+  | _ => none
+
+def terminalOk (cfg : Cfg) (last : Event × Nat × Nat × Tags) (r : Res) : Bool :=
+  let (ev, _, _, tags) := last
+  tags.operation == cfg.opTag
+  && (match r with
+      | .ret _ => ev == .success
+      | .outcome o _ => if o.ok then ev == .success else tags.stop == o.stop && (o.stop == some .aborted || (tags.klass == o.lastClass && tags.cause == o.cause))
+      | _ => match stopOf r with
+        | some s => tags.stop == some s
+        | none => tags.stop.isSome)       -- an exception-caused stop: the reason is only in the event
+  && (ev != .aborted || (tags.klass.isNone && tags.err.isNone && tags.cause.isNone))
+
+def timelineMatches (ms : List (Event × Nat × Nat × Tags)) (tl : List TimelineEv) : Bool :=
+  ms.length == tl.length
+  && (ms.zip tl).all fun (m, e) =>
+      m.1 == e.event && m.2.1 == e.attempt && m.2.2.1 == e.sleep
+      && m.2.2.2.klass == e.klass && m.2.2.2.stop == e.stop && m.2.2.2.cause == e.cause
+
+def ok : Monitor := fun cfg e t r =>
+  if hasLoop cfg e && endsNormally t r && !Mon.rejected t && !Mon.attemptHookFault t then
+    let ms := metricStream t
+    let ls := logStream t
+    (!cfg.metric || (shapeOk ms 1 && (match ms.getLast? with
+        | some l => terminalOk cfg l r
+        | none => false)))
+    && (!cfg.log || (shapeOk ls 1 && (match ls.getLast? with
+        | some l => terminalOk cfg l r
+        | none => false)))
+    && (!(cfg.metric && cfg.log) || ms == ls)
+    && (match r with
+        | .outcome _ tl =>
+          if e.isExecute && cfg.timeline then
+            (if cfg.metric then timelineMatches ms tl
+             else if cfg.log then timelineMatches ls tl
+             else shapeOk (tl.map fun x => (x.event, x.attempt, x.sleep, ({} : Tags))) 1)
+          else true
+        | _ => true)
+    -- breaker events carry attempt 0 and the breaker's state
+    && t.all fun x => match x.1 with
+        | .metric ev a s tags => !isBreakerEvent ev || (a == 0 && s == 0 && tags.state.isSome)
+        | .log ev a s tags _ => !isBreakerEvent ev || (a == 0 && s == 0 && tags.state.isSome)
+        | _ => true
+  else true
+
+end C14
+
+/-! ### C04 — call() surfaces the last attempt; C11 — execute() is faithful -/
+
+namespace C04
+
+structure St where
+  ops : Nat := 0
+  lastOp : Option Ans := none
+  lastCls : Option Classification := none      -- classification of the last op's failure
+  lastCause : Option Cause := none
+  succeeded : Bool := false                    -- last op's value was accepted as success
+  earlierSuccess : Bool := false
+  delay : Option Nat := none                   -- delay offered to the last sleep handler call
+  deferred : Bool := false
+
+def step (cfg : Cfg) (s : St) (x : Req × Ans) : St :=
+  match x.1, x.2 with
+  | .op _, a =>
+    { s with ops := s.ops + 1, lastOp := some a, lastCls := none, lastCause := none,
+             earlierSuccess := s.earlierSuccess || s.succeeded,
+             succeeded := (match a with | .value .. => !cfg.resultClassifier | _ => false) }
+  | .resultClassify _, .noFailure _ => { s with succeeded := true }
+  | .resultClassify _, .klass c _ => { s with lastCls := some c, lastCause := some .result }
+  | .classify _, .klass c _ =>
+    -- Policy.call classifies the final exception once more for the breaker: keep the first
+    if s.lastCls.isSome then s else { s with lastCls := some c, lastCause := some .exception }
+  | .sleepHandler _ _ d, .decision dec _ => { s with delay := some d, deferred := dec == .defer }
+  | _, _ => s
+
+def run (cfg : Cfg) (t : Trace) : St := t.foldl (step cfg) {}
+
+/-- the exception is one the operation raised at some attempt -/
+def raisedByOp (t : Trace) (e : Exn) : Bool := Mon.raisedBy Mon.isOp t e
+
+def ok : Monitor := fun cfg e t r =>
+  if hasLoop cfg e && !e.isExecute && !Mon.rejected t && !Mon.attemptHookFault t then
+    let s := run cfg t
+    match r with
+    | .ret v => s.succeeded && !s.earlierSuccess && (match s.lastOp with
+        | some (.value v' _) => v == v'
+        | _ => false)
+    | .raised (.libExhausted f) =>
+      f.attempts == s.ops
+      && f.lastClass == s.lastCls.map (·.klass)
+      && (match s.lastCause, s.lastOp with
+          | some .result, some (.value v _) => f.lastResult == some v && f.lastExc.isNone
+          | some .exception, some (.raise ex _) => f.lastResult.isNone && f.lastExc == some ex.ref && s.deferred
+          | _, _ => cfg.maxAttempts == 0)
+      && ((f.stop == .scheduled) == f.nextSleep.isSome)
+      && (f.nextSleep.isNone || (s.deferred && f.nextSleep == s.delay))
+    | .raised ex =>
+      -- if it is an exception some attempt raised, it is the LAST attempt's
+      if raisedByOp t ex then (match s.lastOp with
+        | some (.raise e' _) => e' == ex
+        | _ => false)
+      else true
+    | .outcome .. => false
+  else true
+
+end C04
+
+namespace C11
+
+/-- exceptions that may propagate out of execute(): cancellation kinds, a RetryExhaustedError
+    raised by the operation itself, and errors raised by the caller's own callbacks -/
+def mayPropagate (t : Trace) (e : Exn) : Bool :=
+  e.isCancelKind
+  || (match e with
+      | .exhausted .. => C04.raisedByOp t e
+      | _ => false)
+  || Mon.raisedBy (fun r => !Mon.isOp r) t e
+  || e == .libValueError       -- a sleep handler returned a non-SleepDecision (caller's callback)
+
+def ok : Monitor := fun cfg e t r =>
+  if hasLoop cfg e && e.isExecute && !Mon.rejected t && !Mon.attemptHookFault t then
+    let s := C04.run cfg t
+    match r with
+    | .ret _ => false
+    | .raised ex => mayPropagate t ex
+    | .outcome o _ =>
+      o.attempts == s.ops
+      && (o.ok == (s.succeeded && !s.earlierSuccess))
+      && (if o.ok then
+            (match s.lastOp with
+             | some (.value v _) => o.value == some v
+             | _ => false)
+            && o.stop.isNone && o.lastClass.isNone && o.lastExc.isNone && o.lastResult.isNone
+            && o.cause.isNone && o.nextSleep.isNone
+          else
+            o.value.isNone && o.stop.isSome
+            && ((o.stop == some .scheduled) == o.nextSleep.isSome)
+            && (o.nextSleep.isNone || o.nextSleep == s.delay)
+            && (match o.cause with          -- exactly one of last_exception / last_result
+                | some .exception => o.lastExc.isSome && o.lastResult.isNone && o.lastClass.isSome
+                | some .result => o.lastResult.isSome && o.lastExc.isNone && o.lastClass.isSome
+                | none => o.lastExc.isNone && o.lastResult.isNone && o.lastClass.isNone)
+            && (if o.stop == some .aborted then true    -- an abort may pre-empt recording the failure
+                else match s.lastCause, s.lastOp with
+                | some .result, some (.value v _) =>
+                  o.cause == some .result && o.lastResult == some v
+                  && o.lastClass == s.lastCls.map (·.klass)
+                | some .exception, some (.raise ex _) =>
+                  o.cause == some .exception && o.lastExc == some ex.ref
+                  && o.lastClass == s.lastCls.map (·.klass)
+                | _, _ => o.stop == some .maxAttemptsGlobal && cfg.maxAttempts == 0))
+  else true
+
+end C11
+
+/-! ### C07 / C08 / C09 — breaker interactions at policy level -/
+
+namespace C09
+
+structure St where
+  admitted : Option Bool := none      -- the answer of breaker.allow()
+  records : List Req := []            -- record_* calls after admission
+  preRecords : Nat := 0               -- record_* calls before/without admission
+  opsAfterReject : Nat := 0
+  otherAfterReject : Nat := 0
+
+def step (s : St) (x : Req × Ans) : St :=
+  match x.1, x.2 with
+  | .breakerAllow, .admit a _ _ => { s with admitted := some a }
+  | r, _ =>
+    if Mon.isRecord r then
+      (if s.admitted == some true then { s with records := s.records ++ [r] }
+       else { s with preRecords := s.preRecords + 1 })
+    else if s.admitted == some false then
+      (match r with
+       | .metric .. | .log .. => s       -- the rejection event itself
+       | .op _ => { s with opsAfterReject := s.opsAfterReject + 1 }
+       | _ => { s with otherAfterReject := s.otherAfterReject + 1 })
+    else s
+
+def run (t : Trace) : St := t.foldl step {}
+
+/-- the class of the final failure as the breaker should hear it -/
+def finalClass (cfg : Cfg) (t : Trace) (r : Res) : Option EClass :=
+  match r with
+  | .outcome o _ => some (o.lastClass.getD .unknown)
+  | .raised (.libExhausted f) => some (f.lastClass.getD .unknown)
+  | .raised (.exhausted _ k) => some (k.getD .unknown)
+  | .raised e =>
+    if cfg.hasRetry then
+      -- the classifier's verdict on that exception (last classify answer for it)
+      (t.reverse.findSome? fun x => match x.1, x.2 with
+        | .classify ref, .klass c _ => if ref == e.ref then some c.klass else none
+        | _, _ => none)
+    else some (Policy.defaultClass e)
+  | .ret _ => none
+
+def expected (cfg : Cfg) (t : Trace) (r : Res) : Option Req :=
+  match r with
+  | .ret _ => some .breakerSuccess
+  | .outcome o _ =>
+    if o.ok then some .breakerSuccess
+    else if o.stop == some .aborted then some .breakerCancel
+    else (finalClass cfg t r).map Req.breakerFailure
+  | .raised e =>
+    if e.isCancelKind || e.isAbort || e.isCircuitOpen || e == .stuck then some .breakerCancel
+    else (finalClass cfg t r).map Req.breakerFailure
+
+end C09
+
+namespace C07
+
+/-- a rejected call invokes nothing and records nothing -/
+def ok : Monitor := fun cfg e t r =>
+  if e.isPolicy && cfg.breaker.isSome then
+    let s := C09.run t
+    match s.admitted with
+    | some false =>
+      s.opsAfterReject == 0 && s.otherAfterReject == 0 && s.records.isEmpty && s.preRecords == 0
+      && (match r with
+          | .raised (.libCircuitOpen _) => true
+          | .outcome o _ => !o.ok && o.attempts == 0 && o.lastExc == some "libCircuitOpen"
+          | .raised e => Mon.raisedBy (fun _ => true) t e    -- a hook raised a BaseException
+          | _ => false)
+    | _ => true
+  else true
+
+end C07
+
+namespace C08
+
+/-- an admitted call has told the breaker that it is over (≥ 1 record) -/
+def ok : Monitor := fun cfg e t _ =>
+  if e.isPolicy && cfg.breaker.isSome then
+    let s := C09.run t
+    match s.admitted with
+    | some true => !s.records.isEmpty
+    | _ => true
+  else true
+
+end C08
+
+namespace C09
+
+/-- exactly one record, of the kind the final outcome dictates -/
+def ok : Monitor := fun cfg e t r =>
+  if e.isPolicy && cfg.breaker.isSome && !Mon.hookBaseFault t && !Mon.attemptHookFault t then
+    let s := run t
+    match s.admitted with
+    | some true =>
+      s.preRecords == 0
+      && (match s.records with
+          | [rec] => (match expected cfg t r with
+              | some want => rec == want
+              | none => true)
+          | _ => false)
+    | _ => s.records.isEmpty
+  else true
+
+end C09
+
+/-! ### C10 (policy level) — every granted retry spends exactly one budget token -/
+
+namespace C10
+
+structure St where
+  consumed : Nat := 0          -- granted consumes since the last op
+  refused : Nat := 0
+  bad : Bool := false
+
+def step (cfg : Cfg) (s : St) (x : Req × Ans) : St :=
+  match x.1, x.2 with
+  | .op _, _ => { s with consumed := 0, refused := 0 }
+  | .budgetConsume, .granted true => { s with consumed := s.consumed + 1, bad := s.bad || decide (s.consumed + s.refused ≥ 1) }
+  | .budgetConsume, .granted false => { s with refused := s.refused + 1, bad := s.bad || decide (s.consumed + s.refused ≥ 1) }
+  | .metric .retry .., _ => { s with bad := s.bad || (cfg.budget.isSome && s.consumed != 1) }
+  | .metric .budgetExhausted .., _ => { s with bad := s.bad || s.refused != 1 }
+  | .sleeper .., _ => { s with bad := s.bad || (cfg.budget.isSome && s.consumed != 1) }
+  | _, _ => s
+
+def run (cfg : Cfg) (t : Trace) : St := t.foldl (step cfg) {}
+
+def ok : Monitor := fun cfg e t _ =>
+  if hasLoop cfg e && !Mon.attemptHookFault t then !(run cfg t).bad else true
+
+end C10
+
+end Mon
+
 namespace Monitors
 
+open Mon
+
 /-- registry used by the driver: (property id, monitor name, monitor) -/
-def all : List (String × String × Monitor) := []
+def all : List (String × String × Monitor) :=
+  [ ("C01", "caps", C01.ok), ("C02", "deadline", C02.ok), ("C03", "permitted", C03.ok),
+    ("C04", "call_result", C04.ok), ("C05", "delay_flow", C05.ok), ("C07", "rejected", C07.ok),
+    ("C08", "settled", C08.ok), ("C09", "one_record", C09.ok), ("C10", "token_per_retry", C10.ok),
+    ("C11", "outcome", C11.ok), ("C13", "abort_cancel", C13.ok), ("C14", "events", C14.ok),
+    ("C16", "handler", C16.ok) ]
 
 end Monitors
 end Redress
